@@ -57,6 +57,7 @@ func (cr *concRun) analyse(out *ConcOutcome) {
 	cr.checkSweep()
 	cr.checkRefreshTrigger()
 	cr.checkFreshNotReloaded()
+	cr.checkFinalDeadlines()
 	cr.checkConcIter()
 	cr.checkRejectedLoads()
 	cr.checkBulkResults()
